@@ -128,6 +128,9 @@ def mon_c02(script, res):
             if e[2] in forked:
                 return 'pid %d forked twice' % e[2]
             forked[e[2]] = e[1]
+        if e[0] == 'recycled':       # the kernel gave this pid number to a child supervisord did not fork
+            waited.discard(e[1])
+            forked.pop(e[1], None)
         if e[0] == 'wait':
             if e[1] in waited:
                 return 'pid %d waited for twice' % e[1]
@@ -307,6 +310,8 @@ def mon_c04(script, res):
             unreaped.add(e[2])
             if 0 <= e[1] < n:
                 pid_of[e[1]] = e[2]
+        elif k == 'recycled':
+            owner.pop(e[1], None)
         elif k == 'wait':
             unreaped.discard(e[1])
         elif k == 'state' and 0 <= e[1] < n:
@@ -584,6 +589,8 @@ def mon_c03(script, res):
             cur[i] = to
             if not (frm == 10 and to == 20):
                 pend[i] = False
+        elif k == 'recycled':
+            owner.pop(e[1], None)
         elif k == 'wait':
             i = owner.get(e[1])
             if i is not None and 0 <= i < n:
@@ -710,6 +717,15 @@ def many_children_script(n=105, U=2):
     return {'U': U, 'procs': confs, 'groups': [{'priority': 1, 'procs': list(range(n))}], 'ops': ops}
 
 
+def many_children_shutdown_script(n=105, U=2):
+    """More children than the reaper handles in one pass (100), all dying promptly on the stop signal of a shutdown:
+    every one of them must still be reaped and the loop must exit."""
+    confs = [mkconf(startsecs=0, autorestart=0, group=0, stopwaitsecs=2) for _ in range(n)]
+    ops = [{'now': 100, 'acts': []}, {'now': 102, 'acts': []}, {'now': 104, 'acts': [['signal', 15]]}]
+    ops += [{'now': 106 + 2 * k, 'acts': []} for k in range(8)]
+    return {'U': U, 'procs': confs, 'groups': [{'priority': 1, 'procs': list(range(n))}], 'ops': ops}
+
+
 def gen_scripts(chk, which):
     quick = chk.tier == 'quick'
     U = 2
@@ -740,6 +756,8 @@ def gen_scripts(chk, which):
         scripts.append((s, 'multi'))
     if which in ('C02', 'C06') or not quick:
         scripts.append((many_children_script(105, U), 'many'))
+    if which in ('C05', 'C02', 'C06') or not quick:
+        scripts.append((many_children_shutdown_script(105, U), 'many-shutdown'))
     rng = chk.rng
     nrand = 4000 if quick else 60000
     emph = {
@@ -765,9 +783,14 @@ def hostile_script(rng, logdir):
     import errno
     s = life_gen.random_script(rng, hostile=0.3)
     s['logdir'] = logdir
+    if rng.random() < 0.5:
+        # the real activity log, small enough to roll over during the history (backups 0 included)
+        s['mainlog'] = {'maxbytes': rng.choice([0, 200, 2000]), 'backups': rng.choice([0, 0, 1, 3])}
     for c in s['procs']:
         c['capture'] = rng.choice([0, 0, 10, 100])
         c['events'] = rng.choice([0, 1])
+        c['maxbytes'] = rng.choice([0, 0, 64, 4096])       # child logs roll over too
+        c['backups'] = rng.choice([0, 1, 2])
 
     def hostile_bytes():
         parts = []
@@ -794,6 +817,8 @@ def hostile_script(rng, logdir):
                                                           ['a', 1], {'k': 'v'}, 'x' * 70000])]]
         if rng.random() < 0.04:
             op['acts'] = list(op['acts']) + [['jobstop', rng.randrange(4)]]     # SIGSTOP to a child: it is not dead
+        if rng.random() < 0.05:
+            op['acts'] = list(op['acts']) + [['recycled', rng.randrange(6), rng.choice([0, 256, 9])]]   # orphan with a recycled pid
         if rng.random() < 0.5:
             op['outputs'] = [[rng.randrange(4), rng.choice([1, 2]), hostile_bytes()] for _ in range(rng.randrange(1, 3))]
         if rng.random() < 0.3:
@@ -921,6 +946,8 @@ def pool_script(rng):
                 a[3] = n + rng.randrange(nl)
         if rng.random() < 0.06:
             op['acts'] = list(op['acts']) + [['jobstop', rng.randrange(4)]]     # SIGSTOP to a child: it is not dead
+        if rng.random() < 0.08:
+            op['acts'] = list(op['acts']) + [['recycled', rng.randrange(6), rng.choice([0, 256, 9])]]   # orphan with a recycled pid
         if rng.random() < 0.12:
             nreq[0] += 1
             if rng.random() < 0.5:
@@ -1071,7 +1098,15 @@ def config_tie(chk, wd):
             by_name[pc.name] = pc
     AR = {0: False, 1: datatypes.RestartWhenExitUnexpected, 2: datatypes.RestartUnconditionally}
     bad = 0
+    gprio = dict((gc.name, gc.priority) for gc in o.process_group_configs)
     for k, g in enumerate(grid):
+        # the group made from a [program:x] section takes the section's priority (the shutdown order is by group)
+        if gprio.get('q%d' % k) != g.get('priority', 999):
+            bad += 1
+            if bad <= 3:
+                chk.violation({'kind': 'group priority differs from the configuration file', 'program': 'q%d' % k,
+                               'configured': g.get('priority', 'absent (default 999)'), 'parsed': gprio.get('q%d' % k),
+                               'section': [l for l in lines[lines.index('[program:q%d]' % k):][:14]]})
         pc = by_name.get('q%d' % k)
         if pc is None:
             chk.violation({'kind': 'configured program missing after parse', 'program': 'q%d' % k})
@@ -1188,7 +1223,7 @@ def _run(chk, which, prop_rel, proved, wd):
         np_, hp = poller_stream(chk, wd)
         nh += np_
         monitor_hits += hp
-    if which in ('C03', 'C04'):
+    if which in ('C03', 'C04', 'C05'):
         nh += config_tie(chk, wd)
     if which == 'C02':
         # exits that must still be attributed when the reaper meets hostile output, faults or listener pools
